@@ -52,10 +52,25 @@ impl Future for VTimer {
   }
 }
 
-/// Durations are virtual milliseconds; real `Instant` arithmetic of the `_at`
-/// constructors is rounded to the nearest millisecond.
+/// Length of one virtual tick in nanoseconds: 1 ms unless the case says `unit us`
+/// (then every duration of the case is a sub-millisecond one — the model is
+/// unit-agnostic, the library must be too).
+static UNIT_NANOS: std::sync::atomic::AtomicU64 = std::sync::atomic::AtomicU64::new(1_000_000);
+
+pub fn set_unit_nanos(n: u64) {
+  UNIT_NANOS.store(n, std::sync::atomic::Ordering::SeqCst);
+}
+
+/// `n` virtual ticks as a `Duration`.
+pub fn ticks(n: u64) -> Duration {
+  Duration::from_nanos(n * UNIT_NANOS.load(std::sync::atomic::Ordering::SeqCst))
+}
+
+/// Durations are virtual ticks; real `Instant` arithmetic of the `_at`
+/// constructors is rounded to the nearest tick.
 fn millis(d: Duration) -> u64 {
-  ((d.as_micros() + 500) / 1000) as u64
+  let u = UNIT_NANOS.load(std::sync::atomic::Ordering::SeqCst) as u128;
+  ((d.as_nanos() + u / 2) / u) as u64
 }
 
 fn new_timer(d: Duration) -> BoxFuture<'static, ()> {
